@@ -47,6 +47,7 @@ def resStr : GotRes → String
   | .err .index => "err:index"
   | .err .unrequested => "err:unrequested"
   | .err .size => "err:size"
+  | .err .duplicate => "err:duplicate"
   | .panic => "panic"
 
 def addTag (s : St) (t : String) : St := if s.tags.contains t then s else { s with tags := t :: s.tags }
@@ -108,6 +109,10 @@ def step (s : St) (op implObs : String) : St × String × List String :=
         else "stored-outside-block-range"
       let viol := if good then [] else [s!"C13 accept kind={kind} index={i} len={data.length}"]
       let repeated := implOk ∧ s.answers.any (·.1 = i)
+      -- a repeated answer taken for the answer to another request: the in-flight counter is one too low from then
+      -- on (negative in the end) and the next RequestBlocks asks for more than its window
+      let viol := viol ++ (if repeated then
+        [s!"C17 repeated-metadata-piece-counted-as-another-answer index={i}", s!"C13 repeated-metadata-piece-counted-as-another-answer index={i}"] else [])
       let s1 := { s with model := some d', implBytes := ib,
                          answers := if implOk then (i, data) :: s.answers else s.answers }
       let s1 := addTag s1 ("branch:got-" ++ resStr r)
